@@ -67,6 +67,21 @@ class SymStream:
         return SizedPart(start, m)
 
 
+class FaultStream(SymStream):
+    """SymStream whose k-th read() raises once (a socket timeout / a client that went away); k = 0: never"""
+    def __init__(self, avail, frags, data, fail_at, exc=OSError):
+        SymStream.__init__(self, avail, frags, data=data)
+        self.fail_at, self.calls, self.exc = fail_at, 0, exc
+
+    def read(self, n=-1):
+        self.calls += 1
+        if self.calls == self.fail_at:
+            self.asked.append(n)
+            self.given.append(0)
+            raise self.exc("timed out")
+        return SymStream.read(self, n)
+
+
 @unmodelled
 class PyBytesIO:
     """io.BytesIO / tempfile.TemporaryFile as seen from body_mixin: pure Python,
